@@ -27,15 +27,20 @@ func configs(thorough bool) (pdiff.Config, []pdiff.Config, []pdiff.Config) {
 	var all []pdiff.Config
 
 	if thorough {
-		// The full product.
-		for _, alloc := range []int{0, 16, 1024} {
-			for opt := 0; opt <= 3; opt++ {
-				for bits := 0; bits < 8; bits++ {
-					c := pdiff.Config{Opt: opt, Reg: bits & 1, Fold: (bits >> 1) & 1, Cache: (bits >> 2) & 1, Alloc: alloc}
-					if c != base {
-						all = append(all, c)
-					}
+		// The full product of optimizer level and the three switches; the
+		// smallest and a large symbol allocation at the four corners.
+		for opt := 0; opt <= 3; opt++ {
+			for bits := 0; bits < 8; bits++ {
+				c := pdiff.Config{Opt: opt, Reg: bits & 1, Fold: (bits >> 1) & 1, Cache: (bits >> 2) & 1}
+				if c != base {
+					all = append(all, c)
 				}
+			}
+		}
+
+		for _, alloc := range []int{16, 1024} {
+			for _, opt := range []int{0, 2} {
+				all = append(all, pdiff.Config{Opt: opt, Alloc: alloc}, pdiff.Config{Opt: opt, Reg: 1, Fold: 1, Cache: 1, Alloc: alloc})
 			}
 		}
 	} else {
@@ -99,7 +104,7 @@ func main() {
 
 	r.Rule(fmt.Sprintf("programs: every statement form (16 assignment/increment shapes, comparisons, constant expressions, loops, package constants, globals, closures, try/catch, collections, structs, strings, dynamic typing, control flow, scopes, aborting programs) over every numeric type and the listed initial values/constants%s; each program x %d configurations (optimizer 0-3 x registers/constfold/globalcache %s) x type modes against the baseline (optimizer 0, all three off); plus every test block of the tests/**.ego corpus (quick: the 13 language-core directories; thorough: all but ai/server/sql/tables) under %d configurations. distinct = (mode, program) that produces output or an error under the baseline, and (mode, corpus test block) stable in two baseline runs",
 		map[bool]string{false: "", true: " and every ordered pair of statement forms on one variable"}[r.Thorough()],
-		len(all), map[bool]string{false: "as single flips: in all 3 modes optimizer 2, each switch on alone, optimizer 2 with constfold, everything on; in dynamic mode optimizer 1 and 3, optimizer 2 with registers, all switches on at level 0, symbol allocation 16 and 1024 at two corners", true: "in all 8 combinations x symbol allocation {default,16,1024}"}[r.Thorough()], len(corpus)))
+		len(all), map[bool]string{false: "as single flips: in all 3 modes optimizer 2, each switch on alone, optimizer 2 with constfold, everything on; in dynamic mode optimizer 1 and 3, optimizer 2 with registers, all switches on at level 0, symbol allocation 16 and 1024 at two corners", true: "in all 8 combinations, plus symbol allocation 16 and 1024 at the four corners (optimizer 0/2 x all switches off/on)"}[r.Thorough()], len(corpus)))
 	r.Assume("the batch worker repeats ego's main() in one process per configuration; state leaking between its items can hide a difference but cannot raise one, because every disagreement is re-run in fresh `ego run` processes (twice per side) before it is reported",
 		"error messages are compared with source line numbers normalised",
 		"corpus test blocks whose text differs between two baseline runs (timings, ports, environment) are not compared; tests/{ai,server,sql,tables} are not run")
